@@ -7,7 +7,7 @@ mkdir -p bin evidence replays
 go build -o bin/instr ./instr
 S=$(mktemp -d "${TMPDIR:-/tmp}/verif-setup.XXXXXX")
 trap 'rm -rf "$S"' EXIT
-bin/instr -out "$S/ins" -extra "/repo/buffer/hybridbuffer/zz_verif_export.go=$PWD/hooks/hybridbuffer_export.go,/repo/output/fluentdforward/zz_verif_export.go=$PWD/hooks/fluentdforward_limits_export.go,/repo/base/bconfig/zz_verif_export.go=$PWD/hooks/bconfig_export.go" \
+bin/instr -out "$S/ins" -extra "/repo/buffer/hybridbuffer/zz_verif_export.go=$PWD/hooks/hybridbuffer_export.go,/repo/output/fluentdforward/zz_verif_export.go=$PWD/hooks/fluentdforward_limits_export.go,/repo/base/bconfig/zz_verif_export.go=$PWD/hooks/bconfig_export.go,/repo/input/tcplistener/zz_verif_export2.go=$PWD/hooks/tcplistener_receiver_export.go,/repo/input/sysloginput/zz_verif_export.go=$PWD/hooks/sysloginput_export.go" \
   -vfs "github.com/relex/slog-agent/util,github.com/relex/slog-agent/buffer/hybridbuffer"
 # every harness registered in ./check is compiled once (model-checking harnesses against the instrumented tree)
 for h in $(grep -o 'build_mc [a-z_0-9]*' check | awk '{print $2}' | sort -u); do
@@ -17,7 +17,7 @@ done
 # the statement-granularity build of the composed harness (parts of C06, C12, C19)
 M=github.com/relex/slog-agent
 eval "$(grep '^FINE_PKGS=' check)"
-bin/instr -out "$S/insf" -fine "$FINE_PKGS" -extra "/repo/output/fluentdforward/zz_verif_export.go=$PWD/hooks/fluentdforward_limits_export.go,/repo/base/bconfig/zz_verif_export.go=$PWD/hooks/bconfig_export.go" > /dev/null
+bin/instr -out "$S/insf" -fine "$FINE_PKGS" -extra "/repo/output/fluentdforward/zz_verif_export.go=$PWD/hooks/fluentdforward_limits_export.go,/repo/base/bconfig/zz_verif_export.go=$PWD/hooks/bconfig_export.go,/repo/input/tcplistener/zz_verif_export2.go=$PWD/hooks/tcplistener_receiver_export.go,/repo/input/sysloginput/zz_verif_export.go=$PWD/hooks/sysloginput_export.go" > /dev/null
 echo "build agentmc (statement granularity)"
 go build -overlay "$S/insf/overlay.json" -o "$S/h" ./harness/agentmc
 for h in $(grep -o 'build_seq [a-z_0-9]*' check | awk '{print $2}' | sort -u); do
